@@ -3,6 +3,7 @@ C13 — Create, Subscribe and SubscribeOrCreate honour their contract (decision 
 -/
 import Orda.Proofs.ServerContract
 import Orda.Proofs.DispatchBridge
+import Orda.Proofs.ServerRefineJoin
 namespace Orda.Props.C13
 open Orda
 
@@ -61,5 +62,30 @@ theorem server_dispatch_is_current_source (st : Store) (cl : ClientDoc) (col : C
 
 /-- … and the two read-only refusals of `processPack` are the paths of `validatePushPullPack` -/
 theorem server_validation_is_current_source : DB.validateAgree = true := DB.validate_is_source
+
+open Orda.SRef Orda.SRefJ in
+/-- a create request on an absent key (neither the key nor the id exists) CREATES: the datatype record appears under the request's id,
+    key, collection and type, visible; the log is exactly what `pushOps` accepts from ⟨0,0⟩; the creator is the only recorded
+    client; the answer carries the create bit, no operations, and the recorded checkpoint -/
+theorem create_on_absent_key_creates {st : Store} {cl : ClientDoc} {col : CollectionDoc} {p : Pack}
+    (inv : LogInv st) (h : CreateReq st cl col p) {cp2 : CheckPoint} {docs : List OpDoc}
+    (hpush : pushOps pDuid pCol ⟨0, 0⟩ p.ops [] = .ok (cp2, docs)) :
+    let r := processPack st cl col p
+    (absLog st p.duid = [] ∧ absCps st p.duid = []) ∧
+    IsServeJ st cl.cuid .create (freshDoc col p) p.cp.sseq cp2 docs r ∧
+    absLog r.store p.duid = docs.map (·.op) ∧ absCps r.store p.duid = [(cl.cuid, cp2)] ∧
+    r.resp.ops = [] ∧ r.resp.cp = cp2 ∧ r.resp.error = false ∧ r.resp.create = true ∧
+    ∃ d', r.store.getDatatype p.duid = some d' ∧ d'.key = p.key ∧ d'.colNum = col.num ∧ d'.typ = p.typ ∧
+      d'.visible = true ∧ d'.sseqBegin = 0 :=
+  processPack_is_create inv h hpush
+
+open Orda.SRefJ in
+/-- subscribe-or-create on a key that exists under another id is exactly the subscribe request -/
+theorem subscribe_or_create_on_existing_key_subscribes {st : Store} {cl : ClientDoc} {col : CollectionDoc} {p : Pack} {d : DatatypeDoc}
+    (hs : p.subscribe = true) (hro : p.readOnly = false)
+    (hk : st.getDatatypeByKey col.num p.key = some d) (ht : d.typ = p.typ) (hv : d.visible = true)
+    (hd : d.duid ≠ p.duid) :
+    processPack st cl col p = processPack st cl col { p with create := false } :=
+  subOrCreate_eq hs hro hk ht hv hd
 
 end Orda.Props.C13
